@@ -133,6 +133,7 @@ fn main() {
                 }
             });
             let mut ctx = Ctx::new(prop, thorough, seed, driver, known);
+            ctx.marker = Some(format!("{}.current", out));
             if !run_prop(&mut ctx) {
                 eprintln!("unknown property {}", prop);
                 std::process::exit(2);
